@@ -21,6 +21,10 @@ Fails(r) ==
   IN
   Chk("C20", /\ IterOk(z, r.nodes)
              /\ r.nrr = NRrsets(z)
+             \* iter_by_rrset yields exactly the (node, type) pairs of iter_by_node, each once
+             /\ Len(r.flat) = r.nrr
+             /\ {<<LowerName(ParseName(r.flat[k].name).name), r.flat[k].type, r.flat[k].n>> : k \in 1..Len(r.flat)}
+                  = {<<z.recs[k].owner, z.recs[k].type, Len(RRsetAt(z, z.recs[k].owner, z.recs[k].type))>> : k \in 1..Len(z.recs)}
              /\ ApexSet(z, 6, r.soa) /\ ApexSet(z, 2, r.ns))
   \cup Chk("C21", /\ r.val.ok
                   /\ got = v.issues
